@@ -158,6 +158,7 @@ pub fn generate(seed: u64, knobs: &Knobs) -> C10Scenario {
         allow_bundle: true,
         memory_safe: backend == Backend::Memory,
         allow_outside: knobs.layer != Layer::LW,
+        allow_source_alias: false,
     };
     let graph_mode = knobs.include_graph && knobs.layer == Layer::L1;
     let pk = if graph_mode {
@@ -349,6 +350,7 @@ pub fn generate(seed: u64, knobs: &Knobs) -> C10Scenario {
                 requires: Vec::new(),
                 use_alias: false,
                 bare: false,
+                via_source: false,
             };
             let w = mk(&ext);
             let requirer = rp.below(world.sources.len());
@@ -370,6 +372,7 @@ pub fn generate(seed: u64, knobs: &Knobs) -> C10Scenario {
             requires: Vec::new(),
             use_alias: false,
             bare: false,
+            via_source: false,
         };
         let w = mk(&outside);
         world.externals.push(w);
